@@ -93,10 +93,11 @@ type Ctx struct {
 	Fset    *token.FileSet
 	byPath  map[string]*packages.Package
 
-	Funcs    []*FuncInfo
-	byObj    map[*types.Func]*FuncInfo
-	byLit    map[*ast.FuncLit]*FuncInfo
-	litOfVar map[*types.Var]*FuncInfo // local variable bound exactly once to a literal
+	Funcs      []*FuncInfo
+	byObj      map[*types.Func]*FuncInfo
+	statHelper map[*types.Func]int // C02: lookup helpers (see statSubject)
+	byLit      map[*ast.FuncLit]*FuncInfo
+	litOfVar   map[*types.Var]*FuncInfo // local variable bound exactly once to a literal
 
 	prog    *ssa.Program
 	ssaPkgs []*ssa.Package
@@ -492,4 +493,82 @@ func half(n int) int {
 		return n
 	}
 	return (n + 1) / 2
+}
+
+// mutex locates one of the five mutexes by ROLE (struct + type + use), not by field name, so that renaming an
+// unexported field does not break the checks: "fs.STFS", "fs.File", "operations", "tape.physical", "tape.reader".
+func (c *Ctx) mutex(role string) *types.Var {
+	find := func(rel, typ string, pointer bool) []*types.Var {
+		n := c.namedType(rel, typ)
+		if n == nil {
+			return nil
+		}
+		st, ok := n.Underlying().(*types.Struct)
+		if !ok {
+			return nil
+		}
+		var out []*types.Var
+		for i := 0; i < st.NumFields(); i++ {
+			t := st.Field(i).Type()
+			if p, isPtr := t.(*types.Pointer); isPtr {
+				if !pointer {
+					continue
+				}
+				t = p.Elem()
+			} else if pointer {
+				continue
+			}
+			if nm, ok := t.(*types.Named); ok && nm.Obj().Pkg() != nil && nm.Obj().Pkg().Path() == "sync" && (nm.Obj().Name() == "Mutex" || nm.Obj().Name() == "RWMutex") {
+				out = append(out, st.Field(i))
+			}
+		}
+		return out
+	}
+	one := func(vs []*types.Var, what string) *types.Var {
+		if len(vs) != 1 {
+			c.unresolved("%s: expected exactly one mutex field, found %d", what, len(vs))
+			return nil
+		}
+		return vs[0]
+	}
+	switch role {
+	case "fs.STFS":
+		return one(find("pkg/fs", "STFS", false), "fs.STFS")
+	case "fs.File":
+		return one(find("pkg/fs", "File", true), "fs.File")
+	case "operations":
+		return one(find("pkg/operations", "Operations", false), "operations.Operations")
+	case "tape.physical", "tape.reader":
+		vs := find("pkg/tape", "TapeManager", false)
+		if len(vs) != 2 {
+			c.unresolved("tape.TapeManager: expected two mutex fields, found %d", len(vs))
+			return nil
+		}
+		// the physical drive mutex is the one GetWriter locks
+		gw := c.fn("pkg/tape", "(*TapeManager).GetWriter")
+		if gw == nil {
+			return nil
+		}
+		var phys *types.Var
+		for _, cs := range gw.calls {
+			if se, ok := ast.Unparen(cs.Call.Fun).(*ast.SelectorExpr); ok && se.Sel.Name == "Lock" {
+				if fv := selField(gw.Pkg.TypesInfo, se.X); fv == vs[0] || fv == vs[1] {
+					phys = fv
+				}
+			}
+		}
+		if phys == nil {
+			c.unresolved("tape.TapeManager: GetWriter locks neither mutex field")
+			return nil
+		}
+		if role == "tape.physical" {
+			return phys
+		}
+		if vs[0] == phys {
+			return vs[1]
+		}
+		return vs[0]
+	}
+	c.unresolved("unknown mutex role %s", role)
+	return nil
 }
